@@ -239,6 +239,8 @@ type workerActor struct {
 	req       *remoteworker.SynchronizeRequest
 	wakeAt    time.Time
 	syncs     int
+	// sawBlocked: during the current call the worker was seen waiting for work.
+	sawBlocked bool
 }
 
 func newWorkerActor(w *world, idx int) *workerActor {
@@ -246,6 +248,18 @@ func newWorkerActor(w *world, idx int) *workerActor {
 	wa := &workerActor{w: w, idx: idx, name: fmt.Sprintf("worker%d", idx)}
 	wa.queue = pick(t, w.queues)
 	wa.sizeClass = pick(t, wa.queue.sizeClasses)
+	if n := len(wa.queue.sizeClasses); n > 1 {
+		// Spread the workers of a multi-size-class queue so that the
+		// smallest and the largest class are both staffed early: the
+		// fail-on-small / retry-on-largest path needs both.
+		switch w.staffed[wa.queue] {
+		case 0:
+			wa.sizeClass = wa.queue.sizeClasses[0]
+		case 1:
+			wa.sizeClass = wa.queue.sizeClasses[n-1]
+		}
+		w.staffed[wa.queue]++
+	}
 	if wa.queue.predeclared && len(wa.queue.sizeClasses) > 1 && t.Bool(1, 8) {
 		// A size class the queue was not predeclared with.
 		wa.sizeClass = pick(t, []uint32{2, 3, 9})
@@ -308,6 +322,7 @@ func (wa *workerActor) loop() {
 		wa.req = req
 		wa.ctx, wa.cancel = context.WithCancel(context.Background())
 		wa.cancelled = false
+		wa.sawBlocked = false
 		wa.inCall = true
 		wa.syncs++
 		w.orc.post(observation{kind: obsSyncStart, worker: wa, req: req})
@@ -347,7 +362,15 @@ func (wa *workerActor) chooseState(req *remoteworker.SynchronizeRequest) *remote
 	if w.honest {
 		return executingState(d, wa.completion(true))
 	}
-	switch t.Weighted([]int{6, 10, 2, 1, 1}) {
+	restart := 2
+	if w.flaky {
+		restart = 9
+	}
+	switch t.Weighted([]int{6, 10, restart, 1, 1, 1}) {
+	case 5:
+		// Malformed request while executing: no current state at all.
+		w.k.FaultsFired["worker-no-state"]++
+		return nil
 	case 0:
 		return executingState(d, nil) // progress update
 	case 1:
